@@ -145,3 +145,17 @@ def register(reg):
             f'any(spec_seq_ok(self, {OTOP}, k) and not out_ok({ITEM.format(k="k")}, {FR.format(k="k")}) and '
             f'{STK} == {OSTK}[:-1] + [out_fail_frame({ITEM.format(k="k")}, {FR.format(k="k")})] for k in range(0, {N}))']},
         propagates=[GROW])
+
+    # ------------------------------------------------------------------ rule reference (C06: only a missing rule becomes FailedRef)
+    TGT = 'spec_call_target(self)'
+    contract(reg, 'tatsu/peg/base.py:ModelContext.find_rule', ALL, {'self': 'Ctx', 'name': 'str'}, ret='func:PARSE', verify=False, modifies=[],
+             ensures=['uf_rule_defined(name)', 'same_func(result, uf_find_rule(name))'],
+             raises={'KeyError': ['not uf_rule_defined(name)']},
+             note='dictionary lookup of the rule by name (rulemap[name]._parse)')
+    contract(reg, f'{Sx}:Call._parse', ALL, {'self': 'opaque:Model', 'ctx': 'Ctx'}, ret='Val', requires=REQ,
+             ensures=[('property', f'out_ok({TGT}, {OTOP})'),
+                      ('property', f'{STK} == {OSTK}[:-1] + [out_frame({TGT}, {OTOP})]'),
+                      ('property', f'result == out_ret({TGT}, {OTOP})')],
+             raises={'FailedParse': [f'(not self._rule and not uf_rule_defined(self.name) and {SAME}) or '
+                                     f'(not out_ok({TGT}, {OTOP}) and {STK} == {OSTK}[:-1] + [out_fail_frame({TGT}, {OTOP})])']},
+             propagates=[GROW])
